@@ -119,6 +119,16 @@ def scenarios(tier, rng):
                     continue
                 m = rng.choice(small_ms)
                 powmod(bits, rng.choice([2, 3, rand_value(rng, bits), mx]), e, m)
+        # small bases with exponents around the point where base^e first reaches 2^BITS: a shortcut through the plain (wrapping)
+        # power is right below that point and wrong from it on, and a bound derived from floor(log2 base) puts it too high
+        if 8 <= bits <= 576:
+            import math
+            for base in ((3, 5, 7, 10, 255, 65537) if not quick else (3, 10, rng.choice([5, 6, 7, 255, 65537]))):
+                e0 = int(bits / math.log2(base))                       # base^e0 <= 2^BITS < base^(e0 + 1), give or take one
+                e1 = bits // (base.bit_length() - 1)                   # what a floor-log bound would allow
+                for e in dict.fromkeys([e0 - 1, e0, e0 + 1, e0 + 2, (e0 + e1) // 2, e1 - 1, e1, e1 + 1]):
+                    if 0 < e <= mx and base <= mx:
+                        powmod(bits, base, e, rng.choice([mx, mx - rng.getrandbits(min(bits, 20)), rng.choice(ms), (1 << (bits - 1)) + 1]))
         for m in (0, 1, 2, mx):
             powmod(bits, mx, 3 & mx, m)
             powmod(bits, 0, 0, m)
